@@ -82,6 +82,14 @@ def calls(fam: str, a: dict) -> List[Tuple[str, List[Any], Callable[[], Any]]]:
         U = [np.arange(1.0, r * c + 1).reshape(r, c) for r, c in zip(a["rows"], a["cols"])]
         for k, o in holders(a["shape"], ["dense", "sparse", "ktensor", "ttensor", "sum"]):
             out.append((f"{CLS[k]}.mttkrp", [o] + U, (lambda o=o: o.mttkrp(U, a["n"]))))
+            # the same factor collection handed over as a Kruskal tensor (possible when the column counts agree)
+            if len({u.shape[1] for u in U}) == 1 and len(U) >= 1:
+                try:
+                    KU = bind.ttb.ktensor([u.copy() for u in U], np.ones(U[0].shape[1]))
+                except Exception:
+                    KU = None
+                if KU is not None:
+                    out.append((f"{CLS[k]}.mttkrp(ktensor)", [o, KU], (lambda o=o, KU=KU: o.mttkrp(KU, a["n"]))))
     elif fam == "permute":
         for k, o in holders(a["shape"], ["dense", "sparse", "ktensor", "ttensor"]):
             out.append((f"{CLS[k]}.permute", [o], (lambda o=o: o.permute(I(a["order"])))))
